@@ -11,9 +11,12 @@
                              Cyclic`. (The local `seen` set of `subscribers` is subsumed by the global one: a yielded node
                              is traversed, hence globally seen, before the generator resumes.)
   * `Segment.Reach`          the specification side: reachability from a node along `followed`;
+  * `Segment.construct`      `flow.Segment(head, tail)`: simple head, `Traversal.tail(expected)` (`mappers`, `anyE`,
+                             `existsE`: a search *without* a global `seen` set that raises `Cyclic` when a subscriber is
+                             on the current path, `any` stopping at the first hit), simple tail;
   * `Segment.connected`      decidable: every listed member other than the head has a subscription through which the
                              traversal follows it. For a well-formed segment this is *exactly* "every listed member is
-                             reachable from the head" (`Lemmas/C01Dfs.lean`), i.e. the given member list `workers` is the
+                             reachable from the head" (`Lemmas/C01Traversal.lean`), i.e. the given member list `workers` is the
                              reachable set and not a superset of it.
 
 Core Lean only.
@@ -70,6 +73,59 @@ def each (g : Segment) : Except TErr (List Uid) := eachE g (g.workers.length + 1
 inductive Reach (succ : Uid → List Uid) (a : Uid) : Uid → Prop where
   | refl : Reach succ a a
   | step {b c : Uid} : Reach succ a b → c ∈ succ b → Reach succ a c
+
+/-! ### `flow.Segment(head, tail)` — what the constructor accepts -/
+
+/-- `TopologyError` raised by `Segment.__new__` / `Traversal.tail` (`Cyclic` is its subclass) -/
+inductive SErr where
+  | simpleHead     -- 'Simple head required'
+  | simpleTail     -- 'Simple tail required'
+  | disconnected   -- 'Disconnected tail'
+  | cyclic         -- `Traversal.Cyclic`
+  deriving DecidableEq, Repr, Inhabited
+
+/-- `Traversal.mappers()`: the subscribers that are not trained workers, in subscription order. (The local `seen` set
+of `Traversal.subscribers` only skips a repeated subscriber, whose search has already returned `False` — otherwise
+`any` would have stopped — and would return it again; it is left out.) -/
+def mappers (g : Segment) (n : Uid) : List Uid :=
+  match g.worker? n with
+  | none => []
+  | some w => ((g.outEdges w).map (·.sub)).filter (fun m => !g.trained m)
+
+/-- `any(k(m) for m in l)` where `k` may raise: stops at the first `True`, an exception raised before that escapes -/
+def anyE : List Uid → (Uid → Except SErr Bool) → Except SErr Bool
+  | [], _ => .ok false
+  | m :: r, k =>
+    match k m with
+    | .error e => .error e
+    | .ok true => .ok true
+    | .ok false => anyE r k
+
+/-- `exists(traversal)` of `Traversal.tail(expected)`: search along mapper subscriptions *without* a global `seen`
+set, raising `Cyclic` when a subscriber is on the current path (`Traversal.members`):
+```
+if traversal.pivot == expected: return True
+return any(exists(m) for m in traversal.mappers(expected))
+```
+-/
+def existsE (g : Segment) (expected : Uid) : Nat → List Uid → Uid → Except SErr Bool
+  | 0, _, _ => .ok false
+  | f + 1, path, n =>
+    if n = expected then .ok true
+    else anyE (g.mappers n) fun m =>
+      if (n :: path).contains m then .error .cyclic else existsE g expected f (n :: path) m
+
+/-- `flow.Segment(head, tail)` with an explicit tail: simple head, the tail found along mapper subscriptions (or
+`Cyclic` when a cycle is met first), simple tail -/
+def construct (g : Segment) : Except SErr Unit :=
+  match g.worker? g.head, g.worker? g.tail with
+  | some h, some t =>
+    if h.szin > 1 then .error .simpleHead
+    else match existsE g g.tail (g.workers.length + 1) [] g.head with
+      | .error e => .error e
+      | .ok false => .error .disconnected
+      | .ok true => if t.szout > 1 then .error .simpleTail else .ok ()
+  | _, _ => .error .disconnected
 
 /-- every listed member but the head is subscribed to some port from which the traversal follows it -/
 def connected (g : Segment) : Bool :=
